@@ -65,7 +65,7 @@ class Ctx:
     def ensure_replay(self):
         if self._replay_ready: return
         os.makedirs(WORK, exist_ok=True)
-        key = dump.source_hash()
+        key = dump.source_hash() + '-' + hashlib.sha256(open(os.path.join(VERIF, 'replay', 'src', 'main.rs'), 'rb').read()).hexdigest()[:10]
         stamp = os.path.join(REPLAY_TARGET, 'stamp-' + key)
         lock = open(os.path.join(WORK, '.replay.lock'), 'w')
         fcntl.flock(lock, fcntl.LOCK_EX)
